@@ -1,6 +1,7 @@
 package main
 
 import (
+	"encoding/json"
 	"context"
 	"fmt"
 	"math/rand"
@@ -83,7 +84,9 @@ func (openerSuite) Gen(r *rand.Rand, i int) Case {
 	if vol <= 0 {
 		vol = 1
 	}
-	c := Case{Header: fmt.Sprintf("opener kind=hystrix n=%d dur=%d pct=%d vol=%d", n, dur, pct, vol), Tags: []string{"hystrix", tag}}
+	// the injected clock may lie before or after the wall clock: a view read at the wall clock would move the window
+	base := pick(r, "future", "past")
+	c := Case{Header: fmt.Sprintf("opener kind=hystrix n=%d dur=%d pct=%d vol=%d base=%s", n, dur, pct, vol, base), Tags: []string{"hystrix", tag}}
 	t := r.Int63n(3 * width)
 	// optional prelude that must fall out of the window / be reset
 	if r.Intn(3) == 0 {
@@ -122,6 +125,10 @@ func (openerSuite) Gen(r *rand.Rand, i int) Case {
 		if r.Intn(10) == 0 {
 			c.Ops = append(c.Ops, fmt.Sprintf("should %d", t))
 		}
+		if r.Intn(12) == 0 {
+			c.Ops = append(c.Ops, fmt.Sprintf("view %d", t))
+			c.Tags = append(c.Tags, "view")
+		}
 	}
 	c.Ops = append(c.Ops, fmt.Sprintf("should %d", t))
 	// tail: roll the window partly / fully, non-monotonic probes, live thresholds
@@ -142,13 +149,26 @@ func (openerSuite) Gen(r *rand.Rand, i int) Case {
 		case 4:
 			c.Ops = append(c.Ops, fmt.Sprintf("ev %s %d", pick(r, "failure", "success"), t))
 		}
+		if r.Intn(4) == 0 {
+			// a completion stamped late: around one full window behind the newest bucket (must be ignored from
+			// exactly one window on), or a few buckets behind (must still count)
+			back := []int64{int64(n) - 1, int64(n), int64(n) + 1, 1, 2}[r.Intn(5)] * width
+			if t-back >= 0 {
+				c.Ops = append(c.Ops, fmt.Sprintf("ev %s %d", pick(r, "failure", "success", "timeout"), t-back))
+				c.Tags = append(c.Tags, "non-monotonic")
+			}
+		}
+		if r.Intn(4) == 0 {
+			c.Ops = append(c.Ops, fmt.Sprintf("view %d", t))
+			c.Tags = append(c.Tags, "view")
+		}
 		c.Ops = append(c.Ops, fmt.Sprintf("should %d", t))
 	}
 	return c
 }
 
 func (openerSuite) Nontrivial(tags map[string]int) bool {
-	return tags["exact-boundary"]+tags["roll"]+tags["idle-gap"]+tags["transition"]+tags["neutral"]+tags["live-cfg"] > 0
+	return tags["exact-boundary"]+tags["roll"]+tags["idle-gap"]+tags["transition"]+tags["neutral"]+tags["live-cfg"]+tags["view"] > 0
 }
 
 func (openerSuite) Run(h map[string]string, ops []string) []string {
@@ -156,12 +176,17 @@ func (openerSuite) Run(h map[string]string, ops []string) []string {
 	var ho *hystrix.Opener
 	var co *simplelogic.ConsecutiveErrOpener
 	var hcfg hystrix.ConfigureOpener
+	base := clockBase
+	if h["base"] == "past" {
+		base = time.Date(2000, 1, 1, 0, 0, 0, 0, time.UTC)
+	}
+	nowAt := base
 	if h["kind"] == "consec" {
 		o = simplelogic.ConsecutiveErrOpenerFactory(simplelogic.ConfigConsecutiveErrOpener{ErrorThreshold: getI(h, "thr", 10)})()
 		co = o.(*simplelogic.ConsecutiveErrOpener)
 	} else {
 		hcfg = hystrix.ConfigureOpener{ErrorThresholdPercentage: getI(h, "pct", 50), RequestVolumeThreshold: getI(h, "vol", 20),
-			Now: func() time.Time { return clockBase }, RollingDuration: time.Duration(getI(h, "dur", 10_000_000_000)), NumBuckets: int(getI(h, "n", 10))}
+			Now: func() time.Time { return nowAt }, RollingDuration: time.Duration(getI(h, "dur", 10_000_000_000)), NumBuckets: int(getI(h, "n", 10))}
 		o = hystrix.OpenerFactory(hcfg)()
 		ho = o.(*hystrix.Opener)
 	}
@@ -175,7 +200,7 @@ func (openerSuite) Run(h map[string]string, ops []string) []string {
 				}
 			}()
 			f := strings.Fields(op)
-			at := func(s string) time.Time { return clockBase.Add(time.Duration(atoi(s))) }
+			at := func(s string) time.Time { return base.Add(time.Duration(atoi(s))) }
 			switch f[0] {
 			case "ev":
 				t := at(f[2])
@@ -206,6 +231,26 @@ func (openerSuite) Run(h map[string]string, ops []string) []string {
 				return "ok"
 			case "should":
 				return b01(o.ShouldOpen(ctx, at(f[1])))
+			case "view":
+				// the JSON / expvar view of the opener, read when the injected clock shows t
+				if ho == nil {
+					return "ok"
+				}
+				nowAt = at(f[1])
+				b, err := json.Marshal(ho)
+				if err != nil {
+					return "err"
+				}
+				var v struct {
+					Attempts, Errors struct {
+						RollingSum    int64
+						RollingBucket struct{ LastAbsIndex int64 }
+					}
+				}
+				if err := json.Unmarshal(b, &v); err != nil {
+					return "err"
+				}
+				return fmt.Sprintf("e=%d a=%d last=%d,%d", v.Errors.RollingSum, v.Attempts.RollingSum, v.Errors.RollingBucket.LastAbsIndex, v.Attempts.RollingBucket.LastAbsIndex)
 			case "cfg":
 				m := kvs(f[1:])
 				if ho != nil {
